@@ -534,12 +534,14 @@ func (c *Ctx) lowerBoundX(v ssa.Value, at ssa.Instruction, d int, extra []Fact) 
 	switch x := sv.(type) {
 	case *ssa.BinOp:
 		if x.Op == token.ADD {
+			// v + k ≥ lb(v) + k only if the addition cannot wrap: v must be bounded above where the sum
+			// is used (`marker + 1` with marker == MaxInt64 is negative)
 			if k, ok := constInt(x.Y); ok && k >= 0 {
-				if lb, ok := c.lowerBound(x.X, at, d+1); ok {
+				if lb, ok := c.lowerBound(x.X, at, d+1); ok && (k == 0 || c.boundedAbove(x.X, at)) {
 					upd(lb + k)
 				}
 			} else if k, ok := constInt(x.X); ok && k >= 0 {
-				if lb, ok := c.lowerBound(x.Y, at, d+1); ok {
+				if lb, ok := c.lowerBound(x.Y, at, d+1); ok && (k == 0 || c.boundedAbove(x.Y, at)) {
 					upd(lb + k)
 				}
 			}
@@ -552,6 +554,98 @@ func (c *Ctx) lowerBoundX(v ssa.Value, at ssa.Instruction, d int, extra []Fact) 
 		}
 	}
 	return best, have
+}
+
+// boundedAbove: a dominating guard states v < y or v <= y for some y that is a
+// length, a capacity or a constant well below the integer limit — or v is
+// itself such a value (a len, a small constant, a loop counter compared with
+// one): v + small constant does not wrap.
+func (c *Ctx) boundedAbove(v ssa.Value, at ssa.Instruction) bool {
+	sv := stripIntConv(v)
+	small := func(y ssa.Value) bool {
+		y = stripIntConv(y)
+		if k, ok := constInt(y); ok {
+			return k < 1<<62
+		}
+		if call, ok := y.(*ssa.Call); ok && (isBuiltin(call, "len") || isBuiltin(call, "cap")) {
+			return true
+		}
+		if b, ok := y.(*ssa.BinOp); ok && (b.Op == token.SUB || b.Op == token.ADD) {
+			if call, ok := stripIntConv(b.X).(*ssa.Call); ok && (isBuiltin(call, "len") || isBuiltin(call, "cap")) {
+				if _, isK := constInt(b.Y); isK {
+					return true
+				}
+			}
+		}
+		return false
+	}
+	if small(sv) {
+		return true
+	}
+	switch x := sv.(type) {
+	case *ssa.Phi:
+		// a counter: every value that flows in is bounded where it flows in — a small constant or a
+		// length, or a value that reaches the merge only past a guard `value < y` (the loop test)
+		all := len(x.Edges) > 0
+		for i, e := range x.Edges {
+			if small(e) {
+				continue
+			}
+			okEdge := false
+			if i < len(x.Block().Preds) {
+				pred := x.Block().Preds[i]
+				se := stripIntConv(e)
+				for _, f := range c.FactsAt(pred.Instrs[len(pred.Instrs)-1]) {
+					if f.Op == token.ILLEGAL || f.Op == 0 {
+						continue
+					}
+					a, b, op := f.X, f.Y, f.Op
+					if c.Equiv(stripIntConv(b), se) {
+						a, b, op = b, a, flip(op)
+					} else if !c.Equiv(stripIntConv(a), se) {
+						continue
+					}
+					_ = a
+					if op == token.LSS || ((op == token.LEQ || op == token.EQL) && small(b)) {
+						okEdge = true
+					}
+				}
+			}
+			if !okEdge {
+				all = false
+			}
+		}
+		if all {
+			return true
+		}
+	case *ssa.Call:
+		// Index / strconv results and the like are bounded by their inputs' lengths
+		if callee := x.Call.StaticCallee(); callee != nil && callee.Pkg != nil {
+			switch callee.Pkg.Pkg.Path() {
+			case "strings", "bytes", "sort", "unicode/utf8":
+				return true
+			}
+		}
+	}
+	for _, f := range c.FactsAt(at) {
+		if f.Op == token.ILLEGAL || f.Op == 0 {
+			continue
+		}
+		a, b, op := f.X, f.Y, f.Op
+		if c.Equiv(stripIntConv(b), sv) {
+			a, b, op = b, a, flip(op)
+		} else if !c.Equiv(stripIntConv(a), sv) {
+			continue
+		}
+		_ = a
+		if (op == token.LSS || op == token.LEQ || op == token.EQL) && small(b) {
+			return true
+		}
+		if op == token.LSS {
+			return true // strictly below some int: at most MaxInt-1
+		}
+	}
+	return false
 }
 
 // phiLower: φ(init..., φ+c) with c ≥ 0 has the minimum lower bound of its
